@@ -160,14 +160,14 @@ def enum_strings(col, lang, alphabet, max_len, firsts, tag):
 
 def templates(col, lang):
     """Every comment kind of the language (see c16_templates.py), with LF, CRLF and without the final newline."""
-    from vf.props.c16_templates import TEMPLATES
+    from vf.props.c16_templates import EVERY_LANGUAGE, TEMPLATES
 
-    for t in TEMPLATES.get(lang, []):
+    for t in TEMPLATES.get(lang, []) + EVERY_LANGUAGE:
         for variant in (t, t.replace("\n", "\r\n"), t.rstrip("\n")):
             col.eval({"lang": lang, "text": variant}, nontrivial=_nontrivial(lang, variant), labels=["template:comment-kinds"])
 
 
-SOUP_EXTRA = ["#if 0\n", "#endif\n", "<!--", "-->", "\ufeff"]
+SOUP_EXTRA = ["#if 0\n", "#endif\n", "<!--", "-->", "\ufeff", "e\u0301", "\u212b", "[A(\n", "\u0301"]
 
 
 def corpus_files(lang):
